@@ -345,6 +345,18 @@ Theorem C17_bf_embedding :
 Proof. exact bf_embedding_full. Qed.
 Print Assumptions C17_bf_embedding.
 
+(* the observables the harness compares with the implementation are the model's: the combined
+   run gives uf_offsets and the final state, and the k-th entry of the per-step trace is the
+   state of the run on the first k+1 edges (the prefixes C17_uf_inv speaks about) *)
+Theorem C17_harness_observables :
+  forall (n : nat) (es : list edge),
+    option_map fst (uf_run_obs n es) = uf_offsets n es /\
+    (forall o s, uf_run_obs n es = Some (o, s) -> uf_state n es = Some s) /\
+    (forall k s, nth_error (uf_trace n es) k = Some (Some s) ->
+       exists st', run (fuel_of es) (uf_init n) (firstn (S k) es) = Some st' /\ s = st_z st').
+Proof. exact harness_observables_full. Qed.
+Print Assumptions C17_harness_observables.
+
 (* ---------------------------------------------------------------- non-vacuity (round 3) *)
 (* the sort is stable and really reorders *)
 Example C17_nonvacuous_sort :
